@@ -412,3 +412,10 @@ def c18_color_correction(ctx, clip, whitebalancing, colorbalancing, active):
     ctx.ensure("identical output (to swatch-detection noise)", got.shape == want.shape and got.dtype == want.dtype and float(np.max(np.abs(got.astype(float) - want.astype(float)))) <= 1e-3)
     if clip and active:
         ctx.ensure("clip=True: output confined to [0, 1] before and after reload", float(want.max()) <= 1.0 and float(got.max()) <= 1.0 and float(want.min()) >= 0.0 and float(got.min()) >= 0.0)
+
+
+@ob("C18.dep_cv2", kind="B", samples=(2, 6), funcs=[], tol=0.0, cite="(validation of assumed dependency contracts)",
+    note="cv2.imdecode(IMREAD_UNCHANGED) returns what imencode stored (uint8 / uint16, grey / colour, channel order as stored); cv2.cvtColor(BGR2RGB) is the channel reversal")
+def c18_dep_cv2(ctx):
+    from contracts import deps_validation as dv
+    dv.dep_cv2_io(ctx, _cvt_stub)
